@@ -38,8 +38,22 @@ int chan_blocked_waits;
  * pointer offset is symbolic and the SAT conversion exceeds 20 GB even for one frame. */
 #include "device/props/components.h"
 #define TAPE_SLOTS (TAPE_BYTES / WRITE_UNIT)
-struct tape_slot { struct VideoFrame f; uint8_t px[WRITE_UNIT - sizeof(struct VideoFrame)]; };
-static struct tape_slot tapes[3][TAPE_SLOTS];
+/* the pixel area of a slot is typed per tape (TAPEk_PX_T, default uint8_t) so that e.g. float
+ * stores through (float*)frame->data are typed member accesses, not byte_extract lvalues (those
+ * make symex re-expand the whole tape object on every store) */
+#ifndef TAPE0_PX_T
+#define TAPE0_PX_T uint8_t
+#endif
+#ifndef TAPE1_PX_T
+#define TAPE1_PX_T uint8_t
+#endif
+#ifndef TAPE2_PX_T
+#define TAPE2_PX_T uint8_t
+#endif
+#define PXN(T) ((WRITE_UNIT - sizeof(struct VideoFrame)) / sizeof(T))
+static struct { struct VideoFrame f; TAPE0_PX_T px[PXN(TAPE0_PX_T)]; } tape0[TAPE_SLOTS];
+static struct { struct VideoFrame f; TAPE1_PX_T px[PXN(TAPE1_PX_T)]; } tape1[TAPE_SLOTS];
+static struct { struct VideoFrame f; TAPE2_PX_T px[PXN(TAPE2_PX_T)]; } tape2[TAPE_SLOTS];
 static int ntapes;
 /* pointer to byte offset `off` (a multiple of WRITE_UNIT) of a tape, as a case split over the
  * slot index so that every alternative has a concrete offset */
@@ -57,7 +71,8 @@ void
 channel_new(struct channel* self, size_t capacity)
 {
     VASSERT(ntapes < 3, "more than 3 channels in one harness");
-    uint8_t* d = (uint8_t*)tapes[ntapes++];
+    uint8_t* d = ntapes == 0 ? (uint8_t*)tape0 : ntapes == 1 ? (uint8_t*)tape1 : (uint8_t*)tape2;
+    ++ntapes;
     struct channel z = { 0 };
     *self = z;
     self->data = d;
@@ -144,8 +159,14 @@ channel_read_map(struct channel* self, struct channel_reader* reader)
     if (avail) {
         /* any non-empty run of whole writes */
         size_t units = avail / WRITE_UNIT;
+#ifdef CHAN_CHUNK
+        /* chunking fixed per harness instance: at most CHAN_CHUNK writes per map */
+        size_t k = units < CHAN_CHUNK ? units : CHAN_CHUNK;
+        VASSUME(avail == units * WRITE_UNIT);
+#else
         size_t k = ND(uint8_t);
         VASSUME(k >= 1 && k <= units && avail == units * WRITE_UNIT);
+#endif
         s.beg = tape_at(self->data, *pos);
         s.end = tape_at(self->data, *pos + k * WRITE_UNIT);
         reader->pos = *pos + k * WRITE_UNIT;
